@@ -90,6 +90,11 @@ class Sim:
         self.olog = []           # oracle events
         self.problems = []       # things that must never happen in the harness' own network
         self.problems_impl = []  # unexpected exceptions out of the code under test
+        self.alias_problems = [] # a message object re-used / changed between hand-off and transmission
+        # MessageRouter.send_message only queues the message OBJECT for the socket thread; it is
+        # serialised (and routed by its destination address) later.  The harness keeps the object and
+        # transmits when the handler invocation is over.
+        self.outbox = {x: [] for x in nodes}
         self.t = 0
 
     # ---------------------------------------------------------------- recording
@@ -162,13 +167,33 @@ class Sim:
         self.wire(x, y, m, top, j=j)
 
     def wire(self, x, y, m, fr, j=None):
-        fr["ent"]["outs"].append(("send", y, self.canon(x, m, j)))
-        if x in self.ctx[y].peers:
-            mm = copy.copy(m)
-            self.chan[(x, y)].append((mm, j))
-            self.sent_n[(x, y)] += 1
-        if isinstance(m, self.M.QMI_RequestMessage):
-            self.cpend[(x, y)].setdefault(m.request_id, None)
+        """Hand-off to the router: recorded now, transmitted by flush() (the socket thread)."""
+        c = self.canon(x, m, j)
+        fr["ent"]["outs"].append(("send", y, c))
+        if any(e["obj"] is m for e in self.outbox[x]):
+            self.alias_problems.append("the same message object was handed to the router twice before it was transmitted "
+                                       "(%s to %s)" % (c[0], y))
+        self.outbox[x].append(dict(obj=m, y=y, canon=c, j=j))
+
+    def flush(self):
+        """The socket threads run: every queued object is routed by the destination it carries NOW and
+        serialised NOW."""
+        for x in self.names:
+            q, self.outbox[x] = self.outbox[x], []
+            for e in q:
+                m = e["obj"]
+                y_now = m.destination_address.context_id
+                c_now = self.canon(x, m, e["j"])
+                if y_now != e["y"] or c_now != e["canon"]:
+                    self.alias_problems.append("a %s message handed to the router for %s is transmitted as %r to %s: the "
+                                               "object changed after hand-off" % (e["canon"][0], e["y"], c_now, y_now))
+                if y_now not in self.ctx[x].peers:
+                    continue      # the socket manager has no such connection any more
+                if x in self.ctx[y_now].peers:
+                    self.chan[(x, y_now)].append((copy.copy(m), e["j"]))
+                    self.sent_n[(x, y_now)] += 1
+                if isinstance(m, self.M.QMI_RequestMessage):
+                    self.cpend[(x, y_now)].setdefault(m.request_id, None)
 
     def run_hook(self):
         if self.hook is None or self.depth >= 2:
@@ -188,7 +213,11 @@ class Sim:
         k = op[0]
         if not self.stack and not self.inner:
             self.toplog.append(op)
+        if k in ("deliver", "close", "connect", "check", "probe"):
+            self.flush()
         ok = getattr(self, "op_" + k)(*op[1:])
+        if not self.stack:
+            self.flush()
         if ok is not False:
             self.flush_waits()
         return ok is not False
@@ -758,4 +787,6 @@ class Oracle:
             self.flag("harness:" + p, p)
         for p in sim.problems_impl:
             self.flag("c07:exception:" + p, p)
+        for p in sim.alias_problems:
+            self.flag("c07:message-aliasing:" + p.split("(")[0].split(":")[0][:60], p)
         return self.bad
